@@ -79,5 +79,15 @@ CHECKS = {
         note="CEL type taken from vf.refcel's value; programs whose reference outcome is an error are skipped.",
         design_ref="DESIGN.md §4 C13",
     ),
+    "C04": dict(
+        technique="fuzzing / property-based testing (Hypothesis): totality oracle (value | CELEvalError | CELParseError with in-text position) over text, token soup, grammar-directed ill-typed programs and the mutated conformance corpus; thorough adds an atheris campaign",
+        category="exploration",
+        text="Arbitrary text, token soup and character-mutated corpus expressions into compile(); grammar-directed programs (every operator, member, index, macro, "
+             "function on every value kind), the corpus (+ a hand-written edge supplement) verbatim and mutated, into both runners; any exception other than the "
+             "library's errors, a parse error without an in-text position, or an error that cannot be rendered is a violation; crashes bucketed by (type, innermost celpy frame) "
+             "and localised to the smallest crashing sub-expression.",
+        note="Out of domain: macro with a non-identifier variable, has() of a non-selection, the non-standard reduce()/min() macros.",
+        design_ref="DESIGN.md §4 C04",
+    ),
 }
 NOT_APPLICABLE = {}
